@@ -546,6 +546,14 @@ func frameBlock(c *ex.Ctx, fd *ast.FuncDecl) []string {
 	return s.out
 }
 
+// bodyPrefix: the widgets whose function bodies the C14 model transcribes (their skeletons are
+// emitted as <prefix><Function>Body). A widget type that is not listed still appears in drawWidgets
+// (widget_inventory_complete then fails) but gets no skeleton.
+var bodyPrefix = map[string]string{
+	"button.Button": "button", "center.Center": "center", "richtext.RichText": "richtext",
+	"text.Text": "text", "textfield.TextField": "textfield",
+}
+
 func genRound2(c *ex.Ctx, sbp *strings.Builder) {
 	vx := c.Parse("vxfw/vxfw.go")
 	if vx == nil {
@@ -604,6 +612,9 @@ func genRound2(c *ex.Ctx, sbp *strings.Builder) {
 		if cond, msg, ok := boundedGuard(c, w.draw); ok {
 			guards = append(guards, [2]string{full, cond + " => " + msg})
 		}
+		if _, known := bodyPrefix[full]; !known && full != "list.Dynamic" {
+			c.Fail("%s: widget type %s has a Draw method but is not modelled", c.Pos(w.draw), full)
+		}
 		fns := []string{"Draw"}
 		switch full {
 		case "text.Text", "richtext.RichText":
@@ -622,8 +633,8 @@ func genRound2(c *ex.Ctx, sbp *strings.Builder) {
 			}
 			// list.Dynamic's scrolling logic belongs to C19: only its guard, surfaces and child
 			// constraints are C14 facts (below), not the whole body
-			if full != "list.Dynamic" {
-				bodies = append(bodies, bodyT{lean: strings.ToLower(w.pkg[:1]) + w.pkg[1:] + strings.ToUpper(fn[:1]) + fn[1:] + "Body", fd: fd})
+			if prefix, ok := bodyPrefix[full]; ok {
+				bodies = append(bodies, bodyT{lean: prefix + strings.ToUpper(fn[:1]) + fn[1:] + "Body", fd: fd})
 			}
 		}
 	}
